@@ -244,7 +244,7 @@ impl Sys for St {
                     return Err((k("ok-zero-before-complete"), format!("write({}-byte buffer) returned Ok(0) at offset {} of {} (neither progress nor OutputOverflow)", out, self.off, total)));
                 }
                 if !self.cfg.cuts.contains(&(self.off + n)) {
-                    return Err((k("partial-line"), format!("write({}-byte buffer) at offset {} emitted {} bytes, ending inside a line (or between the last header and the empty line): {:?}", out, self.off, n, show(&buf[..n]))));
+                    return Err((k("partial-line"), format!("write({}-byte buffer) at offset {} emitted {} bytes, ending inside a line: {:?}", out, self.off, n, show(&buf[..n]))));
                 }
                 self.off += n;
                 if (self.off == total) != self.done() {
@@ -256,11 +256,12 @@ impl Sys for St {
                 if was_done {
                     return Err((k("overflow-after-complete"), "OutputOverflow although the head is complete".into()));
                 }
-                let unit = next_cut.unwrap() - self.off;
-                let last = next_cut == Some(total);
-                // the statement's "line" does not settle whether the glued empty line counts: accept both in [line, line+2)
+                let line = next_cut.unwrap() - self.off;
+                // the statement's "line" does not settle whether the empty line glued to the last header
+                // counts: for the last header an overflow is accepted while the buffer is < line + 2
+                let last_header = next_cut.unwrap() + 2 == total;
+                let unit = if last_header { line + 2 } else { line };
                 let definitely_fits = *out >= unit;
-                let _maybe = last && *out + 2 >= unit;
                 if definitely_fits {
                     return Err((k("overflow-although-line-fits"), format!("OutputOverflow for a {}-byte buffer although the next line ({} bytes) fits", out, unit)));
                 }
@@ -296,19 +297,10 @@ impl Sys for St {
 }
 
 fn cuts_of(refb: &[u8]) -> Vec<usize> {
-    let ends = crate::props::heads::line_ends(refb);
-    // ends = [end of request line, end of each header line..., end of blank line]
-    let mut v: Vec<usize> = ends.clone();
-    if v.len() >= 2 {
-        let n = v.len();
-        // the last header's own end is not a permitted stop: the empty line is glued to it
-        if n >= 3 {
-            v.remove(n - 2);
-        } else {
-            // no header at all cannot happen (Host is always present)
-        }
-    }
-    v
+    // every line end is a permitted stop ("only whole lines"): request line, each header line, the empty line.
+    // (The pinned implementation glues the empty line to the last header; an implementation that emits
+    // it on its own also satisfies the statement.)
+    crate::props::heads::line_ends(refb)
 }
 
 fn build_cfg(label: String, spec: Spec, make: Box<dyn Fn() -> W + Send + Sync>) -> Result<Arc<HeadCfg>, (String, String)> {
